@@ -111,7 +111,7 @@ int main(int argc, char **argv) {
     if (ns == 0) { emit(J().s("e", "LayoutError").s("what", "could not determine edge node size").str()); return 5; }
     auto graphs = read_graphs(in);
     for (size_t i = (size_t) start; i < graphs.size(); i++) {
-        g_current_item = (long) i;
+        g_current_item = (long) i; set_crash_context(graphs[i].raw);
         const InGraph &g = graphs[i];
         for (auto &a : algos) for (auto &pz : ps) for (auto &lay : layouts) {
             int reps = (lay == "identity" || lay == "reversed_odd") ? 1 : nseeds;
